@@ -253,6 +253,11 @@ def run(ctx):
                 break
         if any(v < 0 or v > float(cap) for v in vals):
             ctx.fail('exp_decay schedule leaves [0, cap]', case, 'expdecay-range')
+        # the statement itself: min(1 - 1/max(k, 1), cap), also for caps above 1 (where the cap never binds)
+        badk = next((k for k, v in zip(ks, vals) if abs(v - min(1 - 1 / max(k, 1), float(cap))) > 1e-15), None)
+        if badk is not None:
+            ctx.fail(f'exp_decay_factor_averaging({float(cap)})({badk}) = {vals[badk]}, the statement says {min(1 - 1 / max(badk, 1), float(cap))}',
+                     dict(case, step=badk), 'expdecay-value')
         try:
             f(-1)
             ctx.fail('negative step accepted', case, 'expdecay-negative')
